@@ -153,6 +153,8 @@ def run(rep: vk.Report):
     tree_fails = trees.run()
     num_checker = ("fun c => match c with (e, v, pts, ppts, obs) => "
                    "worst (map (num_check (grad ln2c ln10c v e) pts ppts) obs) end")
+    # ---- derivatives of formulas AS WRITTEN (independent NumPy function, finite differences), the same object under two orders
+    wd_checked, wd_bad = common.written_derivatives(rep, rng, 2 if rep.tier == "quick" else 40, "sym", "C02")
     num_fails, num_und = common.run_classify(IMPORTS + " SemI HarnessI", "", "expr * string * list (string * Q) * list (string * Q) * list Q",
                                              nums, num_checker) if nums else ([], [])
 
@@ -174,6 +176,8 @@ def run(rep: vk.Report):
                        "case": nums[i][:5000], "meta": m, "witness": wit}, concrete=wit is not None)
 
     cov = rep.coverage
+    cov["derivatives_of_formulas_as_written_vs_finite_differences"] = wd_checked
+    cov["derivatives_of_formulas_as_written_disagreements"] = wd_bad
     cov["evaluations"] = len(trees.terms) + len(nums)
     cov["distinct_nontrivial"] = trees.nontrivial
     cov["rule"] = ("API-built expressions (seeded generator), each differentiated w.r.t. up to 3 of its variables and one absent "
